@@ -416,6 +416,8 @@ func (e *env) key(kk string) goja.Value {
 		return e.vm.ToValue("x")
 	case "I":
 		return e.vm.ToValue(7)
+	case "N": // a canonical numeric STRING key: the same property as index 7, routed to the Idx traps of a Go handler
+		return e.vm.ToValue("7")
 	case "Y":
 		return e.syms["y1"]
 	}
@@ -682,7 +684,7 @@ func (e *env) e2e(hk, kk, trap string, f []string) string {
 			goRes = e.desc(f[2])
 		}
 		switch kk {
-		case "I":
+		case "I", "N":
 			cfg.GetOwnPropertyDescriptorIdx = func(*goja.Object, int) goja.PropertyDescriptor { return goRes }
 		case "Y":
 			cfg.GetOwnPropertyDescriptorSym = func(*goja.Object, *goja.Symbol) goja.PropertyDescriptor { return goRes }
@@ -695,7 +697,7 @@ func (e *env) e2e(hk, kk, trap string, f []string) string {
 		ext, cur, b, thr := bit(f[0]), f[1], bit(f[3]), f[4]
 		t := e.mkTarget(goja.Null(), key, cur, ext)
 		switch kk {
-		case "I":
+		case "I", "N":
 			cfg.DefinePropertyIdx = func(*goja.Object, int, goja.PropertyDescriptor) bool { return b }
 		case "Y":
 			cfg.DefinePropertySym = func(*goja.Object, *goja.Symbol, goja.PropertyDescriptor) bool { return b }
@@ -708,7 +710,7 @@ func (e *env) e2e(hk, kk, trap string, f []string) string {
 		ext, cur, b := bit(f[0]), f[1], bit(f[2])
 		t := e.mkTarget(goja.Null(), key, cur, ext)
 		switch kk {
-		case "I":
+		case "I", "N":
 			cfg.HasIdx = func(*goja.Object, int) bool { return b }
 		case "Y":
 			cfg.HasSym = func(*goja.Object, *goja.Symbol) bool { return b }
@@ -721,7 +723,7 @@ func (e *env) e2e(hk, kk, trap string, f []string) string {
 		ext, cur, v := bit(f[0]), f[1], e.val(f[2])
 		t := e.mkTarget(goja.Null(), key, cur, ext)
 		switch kk {
-		case "I":
+		case "I", "N":
 			cfg.GetIdx = func(*goja.Object, int, goja.Value) goja.Value { return v }
 		case "Y":
 			cfg.GetSym = func(*goja.Object, *goja.Symbol, goja.Value) goja.Value { return v }
@@ -734,7 +736,7 @@ func (e *env) e2e(hk, kk, trap string, f []string) string {
 		ext, cur, v, b, thr := bit(f[0]), f[1], e.val(f[2]), bit(f[3]), f[4]
 		t := e.mkTarget(goja.Null(), key, cur, ext)
 		switch kk {
-		case "I":
+		case "I", "N":
 			cfg.SetIdx = func(*goja.Object, int, goja.Value, goja.Value) bool { return b }
 		case "Y":
 			cfg.SetSym = func(*goja.Object, *goja.Symbol, goja.Value, goja.Value) bool { return b }
@@ -747,7 +749,7 @@ func (e *env) e2e(hk, kk, trap string, f []string) string {
 		ext, cur, b, thr := bit(f[0]), f[1], bit(f[2]), f[3]
 		t := e.mkTarget(goja.Null(), key, cur, ext)
 		switch kk {
-		case "I":
+		case "I", "N":
 			cfg.DeletePropertyIdx = func(*goja.Object, int) bool { return b }
 		case "Y":
 			cfg.DeletePropertySym = func(*goja.Object, *goja.Symbol) bool { return b }
